@@ -14,9 +14,14 @@ open GlueVerif.C11
 #print axioms bytes_eq_iff_tuple_eq
 #print axioms join_chain
 #print axioms join_view
+#print axioms impl_eq_np
+#print axioms np_eq_spec
 #print axioms impl_eq_spec
+#print axioms spec_rowMatch_imp_np
 #print axioms join_correct
 #print axioms nn_dtype_mismatch
 #print axioms nn_dtype_false_positive
 #print axioms nn_string_width_mismatch
 #print axioms nn_float_specials
+#print axioms nn_mixed_columns_exact
+#print axioms int64_float_promotion
